@@ -375,6 +375,8 @@ class Net:
                 v = (lo + hi) // 2
             elif isinstance(pol, int):
                 v = pol
+            elif isinstance(pol, dict):
+                v = pol.get('%s:%d' % (t, n))          # scripted per draw: {"<instant>:<ordinal>": value}
         elif r == 'lo':
             v = lo
         elif r == 'hi':
